@@ -12,8 +12,16 @@
 (* complete history is linearizable w.r.t. the sequential map / set, and   *)
 (* exports the schedules; the harness replays them on the real containers  *)
 (* with real goroutines (f blocks on a gate).                              *)
+(*                                                                         *)
+(* The component-definition registry (container/support/                   *)
+(* component_definition_registry.go) is the same kind of object and is     *)
+(* what the goroutines of the parallel scanning phase share: RGetOrReg =   *)
+(* GetMetaOrRegister (LoadOrStoreFn whose f builds the definition and      *)
+(* calls the component's Naming() - the gate), RReg = RegisterMeta         *)
+(* (Store), RByName = GetMetaByName (Load), RMetas = GetMetas (every       *)
+(* registered definition, in name order).                                  *)
 (***************************************************************************)
-EXTENDS Integers, Sequences, FiniteSets, TLC, Json
+EXTENDS Integers, Sequences, FiniteSets, TLC, Json, SequencesExt
 
 CONSTANTS G, Keys, OpKinds, MaxOps, Repaired
 None == 0
@@ -31,12 +39,16 @@ Init == m = [k \in Keys |-> None] /\ s = [k \in Keys |-> FALSE] /\ cur = [g \in 
 Started == Len(SelectSeq(acts, LAMBDA a : a.a = "start"))
 Clock == Len(acts) + 1          \* index of the action being taken; doubles as a unique value
 
+FnKinds == {"LoadOrStoreFn", "RGetOrReg"}     \* operations that run a caller-supplied function when the key is absent
+\* what GetMetas returns: the value under every present key, in key order
+Present(mm) == LET ks == SetToSortSeq({k \in Keys : mm[k] # None}, <) IN [i \in 1..Len(ks) |-> mm[ks[i]]]
 \* sequential semantics: result and new state of operation o applied to <<mm, ss>>
 SeqSem(o, mm, ss) ==
-  CASE o.op = "Load"   -> [rv |-> mm[o.k], rok |-> mm[o.k] # None, m |-> mm, s |-> ss]
-    [] o.op = "Store"  -> [rv |-> None, rok |-> TRUE, m |-> [mm EXCEPT ![o.k] = o.v], s |-> ss]
+  CASE o.op \in {"Load", "RByName"} -> [rv |-> mm[o.k], rok |-> mm[o.k] # None, m |-> mm, s |-> ss]
+    [] o.op \in {"Store", "RReg"}  -> [rv |-> None, rok |-> TRUE, m |-> [mm EXCEPT ![o.k] = o.v], s |-> ss]
+    [] o.op = "RMetas" -> [rv |-> Present(mm), rok |-> TRUE, m |-> mm, s |-> ss]
     [] o.op = "Delete" -> [rv |-> None, rok |-> TRUE, m |-> [mm EXCEPT ![o.k] = None], s |-> ss]
-    [] o.op \in {"LoadOrStore", "LoadOrStoreFn"} ->
+    [] o.op \in {"LoadOrStore", "LoadOrStoreFn", "RGetOrReg"} ->
          IF mm[o.k] # None THEN [rv |-> mm[o.k], rok |-> TRUE, m |-> mm, s |-> ss]
          ELSE [rv |-> o.v, rok |-> FALSE, m |-> [mm EXCEPT ![o.k] = o.v], s |-> ss]
     [] o.op = "Put"    -> [rv |-> None, rok |-> TRUE, m |-> mm, s |-> [ss EXCEPT ![o.k] = TRUE]]
@@ -49,9 +61,9 @@ Start(g, kind, k) ==
   /\ LET o == [g |-> g, op |-> kind, k |-> k, v |-> Clock]
          act == [a |-> "start", g |-> g, op |-> kind, k |-> k, v |-> Clock] IN
      /\ acts' = Append(acts, act)
-     /\ IF kind = "LoadOrStoreFn" /\ m[k] = None
+     /\ IF kind \in FnKinds /\ m[k] = None
         THEN \* Load found nothing: the goroutine is now inside f
-             /\ cur' = [cur EXCEPT ![g] = [o EXCEPT !.op = "LoadOrStoreFn"] @@ [st |-> Clock]]
+             /\ cur' = [cur EXCEPT ![g] = o @@ [st |-> Clock]]
              /\ UNCHANGED <<m, s, ops>>
         ELSE LET r == SeqSem(o, m, s) IN
              /\ m' = r.m /\ s' = r.s
@@ -61,7 +73,7 @@ Start(g, kind, k) ==
 Release(g) ==
   /\ cur[g] # Idle
   /\ LET o == cur[g] IN
-     /\ acts' = Append(acts, [a |-> "release", g |-> g, op |-> "LoadOrStoreFn", k |-> o.k, v |-> o.v])
+     /\ acts' = Append(acts, [a |-> "release", g |-> g, op |-> o.op, k |-> o.k, v |-> o.v])
      /\ cur' = [cur EXCEPT ![g] = Idle]
      /\ IF Repaired /\ m[o.k] # None
         THEN /\ ops' = Append(ops, [g |-> g, op |-> o.op, k |-> o.k, v |-> o.v, st |-> o.st, en |-> Clock, rv |-> m[o.k], rok |-> TRUE])
@@ -89,7 +101,7 @@ C20_Linearizable == Complete => Linearizable(ops)
 \* two completed load-or-stores on one key with no delete in between never both report "stored"
 C20_OneWinner ==
   \A i, j \in 1..Len(ops) :
-     (i < j /\ ops[i].op \in {"LoadOrStore", "LoadOrStoreFn"} /\ ops[j].op \in {"LoadOrStore", "LoadOrStoreFn"}
+     (i < j /\ ops[i].op \in {"LoadOrStore"} \cup FnKinds /\ ops[j].op \in {"LoadOrStore"} \cup FnKinds
         /\ ops[i].k = ops[j].k /\ ~ops[i].rok /\ ~ops[j].rok)
      => \E d \in 1..Len(ops) : ops[d].op = "Delete" /\ ops[d].k = ops[i].k
 Export == Complete => PrintT(<<"SCHED", ToJson(acts)>>)
